@@ -14,13 +14,20 @@
     [UB 96/97/98] (mismatched reduction buffers) are impossible: the only undefined behaviour an MPI run can
     show is that of a local iteration on a part of the stream or of the (common) refinement.
 
-    (INTERIM VERSION: the C04_counters / C04_sums_R theorems mentioned below are still being added.)
-    What is NOT proved: C04_points_* cover the random numbers / channel selections of all three integrators
-    as functions of the stream position, and the full observation for PLAIN; for VEGAS the (point, bins,
-    weight) triple; the multi-channel coordinates are not covered when the user's map depends on its call
-    counter.  C04_sums_R covers the main result of PLAIN in NumR (for an integrand that does not depend on
-    its call counter - each rank has its own copy of the integrand object); bins of distributions and the
-    VEGAS / multi-channel adjustment data are not covered there. *)
+    What is NOT proved / where the statements are weaker than the property text:
+    - "the multiset of points": C04_points_* state equality of LISTS (ranks concatenated in rank order =
+      serial call order), which is stronger.  PLAIN: the whole observation except the integrand's own call
+      counter (each rank owns a copy of the integrand object, so the counters differ - this is the model's
+      [o_idx]).  VEGAS: (point, bins, weight); multi-channel: the random numbers and the selected channel -
+      both relative to the adaptive state the ranks share in that iteration; that this state equals the
+      serial run's (mpi_equals_serial_R of DESIGN.md for VEGAS / multi-channel) is NOT proved.  The
+      multi-channel coordinates are not covered (the user's map may depend on its per-copy call counter).
+    - "sums agree up to reassociation": proved in the form of exact equality over NumR for every summation
+      order (C04_reduce_R, C04_sums_R_partial, C04_plain_equals_serial_R), for PLAIN, one iteration, for an
+      integrand that [ignores_counter].  Bins of distributions and the VEGAS / multi-channel adjustment data
+      are not compared (hence _partial); no floating-point reassociation bound is proved.
+    - a UB result of a run is only classified by origin ([plain_ub] etc.: some local iteration on part of the
+      stream or some refinement returns that code); it is not shown that the serial run hits the same UB. *)
 From Coq Require Import ZArith NArith List Bool Permutation Reals.
 From HepMC Require Import Num NumR NumB Translated Result Accum VegasPdf Discrete MultiChannel Iter Chkpt Callback Run Mpi
   Lemmas_Run Lemmas_C16 Lemmas_C10 Lemmas_C04.
@@ -203,6 +210,56 @@ Theorem C04_points_mc : forall (K : Num) (L : Libm K) (strm : N -> K) ps f world
 Proof. exact (@c04_points_mc). Qed.
 Print Assumptions C04_points_mc.
 
+(* C04_counters: with ANY permutation of the ranks as summation order the reduced integer buffer is the
+   element-wise sum of the ranks' buffers (taken in rank order) - and the reduction cannot fail *)
+Theorem C04_counters : forall perm (contribs : list (list N)) n,
+  Permutation perm (iotaN 0 (length contribs)) -> contribs <> [] -> Forall (fun c => length c = n) contribs ->
+  exists v, allreduce N.add perm contribs = Ok v /\ length v = n /\
+    forall k, (k < n)%nat -> nth k v 0%N = Nsum (map (fun c => nth k c 0%N) contribs).
+Proof. exact allreduce_N_sum. Qed.
+Print Assumptions C04_counters.
+
+(* the same for the T buffer over the reals: no dependence on the summation order *)
+Theorem C04_reduce_R : forall perm (contribs : list (list R)) n,
+  Permutation perm (iotaN 0 (length contribs)) -> contribs <> [] -> Forall (fun c => length c = n) contribs ->
+  exists v, allreduce (add NumR) perm contribs = Ok v /\ length v = n /\
+    forall k, (k < n)%nat -> nth k v 0%R = Rsum (map (fun c => nth k c 0%R) contribs).
+Proof. exact allreduce_R_sum. Qed.
+Print Assumptions C04_reduce_R.
+
+(* every permutation of the ranks is an admissible summation order for the lock-step theorems *)
+Theorem C04_perm_ok_of_permutation : forall world perm,
+  world_ok world -> Permutation perm (iotaN 0 (N.to_nat world)) -> perm_ok world perm.
+Proof. exact perm_ok_of_permutation. Qed.
+Print Assumptions C04_perm_ok_of_permutation.
+
+(* C04_sums_R: PLAIN over the reals, integrand independent of its per-copy call counter, any permutation as
+   summation order: the result every rank adds has the serial iteration's main part (calls, non-zero calls,
+   finite calls, sum, sum of squares) and distribution structure, and is stored with the serial generator.
+   (_partial: the bin contents of distributions are not compared.) *)
+Theorem C04_sums_R_partial : forall (strm : N -> NumR) ps (f : integrand NumR) world perm,
+  ignores_counter f -> forall d cb calls sts (c : pchk NumR) g sts' logs go idx0 rser gser idxser evser,
+  world_ok world -> Permutation perm (iotaN 0 (N.to_nat world)) -> cb_rank_independent cb ->
+  (calls < 2 ^ 64)%N -> length sts = N.to_nat world -> agree c g tt sts ->
+  mpi_iteration (pchk NumR) unit (plainres NumR) world perm sub_calls_plain (N.of_nat d)
+    (plain_li strm ps f d) (fun r => r) (fun _ => []) (fun _ pl _ => pl) base_add cb noref calls sts = Ok (sts', logs, go) ->
+  plain_iteration strm ps f d calls g idx0 = Ok (rser, gser, idxser, evser) ->
+  exists rpar, p_main rpar = p_main rser /\ tshape rpar = tshape rser /\ agree (base_add c rpar gser) gser tt sts'.
+Proof. exact c04_plain_main_R. Qed.
+Print Assumptions C04_sums_R_partial.
+
+(* without distributions: every rank's checkpoint after the iteration IS the serial checkpoint *)
+Theorem C04_plain_equals_serial_R : forall (strm : N -> NumR) (f : integrand NumR) world perm d cb calls sts (c : pchk NumR) g sts' logs go
+    idx0 rser gser idxser evser,
+  ignores_counter f -> world_ok world -> Permutation perm (iotaN 0 (N.to_nat world)) -> cb_rank_independent cb ->
+  (calls < 2 ^ 64)%N -> length sts = N.to_nat world -> agree c g tt sts ->
+  mpi_iteration (pchk NumR) unit (plainres NumR) world perm sub_calls_plain (N.of_nat d)
+    (plain_li strm [] f d) (fun r => r) (fun _ => []) (fun _ pl _ => pl) base_add cb noref calls sts = Ok (sts', logs, go) ->
+  plain_iteration strm [] f d calls g idx0 = Ok (rser, gser, idxser, evser) ->
+  agree (base_add c rser gser) gser tt sts'.
+Proof. exact c04_plain_equals_serial_R. Qed.
+Print Assumptions C04_plain_equals_serial_R.
+
 (* non-vacuity: world = 3, calls [4; 1], reduction order 2,0,1, PLAIN in double precision: the hypotheses of
    the theorems hold, the run is defined, all ranks return the serial checkpoint and sit at 0 + 5 * 2, the
    ranks evaluate 2,1,1 and 1,0,0 points which concatenate to the serial points ([ex04_check], computed
@@ -211,3 +268,7 @@ Example C04_example : ex04_check = true /\ world_ok 3 /\ perm_ok 3 [2; 0; 1]%N /
   cb_rank_independent (fun (_ : N) (_ : pchk B64) => true) /\ Forall (fun calls => (calls < 2 ^ 64)%N) [4; 1]%N /\
   Permutation [2; 0; 1]%N (iotaN 0 3).
 Proof. exact c04_example. Qed.
+
+(* an integrand over the reals that satisfies the hypothesis of C04_sums_R *)
+Example C04_example_ignores_counter : ignores_counter ex04_fR.
+Proof. exact ex04_fR_ok. Qed.
